@@ -85,7 +85,7 @@ def routed (s : MState) (pr : Prim) (p : Str) : MState × Out × List Call :=
   match delegate s.mounts p with
   | .err e => (s, .err e, [])
   | .ok (i, r) =>
-    let m := memberCall s.fs i pr.meth r (pr.memberOp r)
+    let m := forward s.fs i pr r
     ({ s with fs := m.1 }, m.2.1, [m.2.2])
 
 /-- `self.check()` -/
@@ -161,6 +161,9 @@ def prim (s : MState) (pr : Prim) : MState × Out × List Call :=
   | .scanFirst p => checked s (scanRouted s p true)
   | .openbin p m =>
     if (parseBinMode m).isNone then (s, .err .ValueError, [])
+    else checked s (routed s pr p)
+  | .open_ p m _ =>          -- `validate_open_mode(mode)` before `check()`
+    if !modeOk m then (s, .err .ValueError, [])
     else checked s (routed s pr p)
   | .removedir p =>
     checked s
